@@ -44,6 +44,11 @@ def scale(rows, mult, idcol):
     return out
 
 
+def odd_position(rec):
+    tags = [r[1][0] for r in rec["from"]["tab"]["rows"]]
+    return 1 + next(i for i, t in enumerate(tags) if tags.count(t) == 1)
+
+
 def long_case(job):
     rec, n = job
     act, args, to = rec["act"], rec["args"], rec["to"]
@@ -68,11 +73,11 @@ def long_case(job):
                 raise rp.Diff(f"{tag}rows", {"first_differing_row": i, "expected": exp[i : i + 1], "observed": obs[i : i + 1],
                                              "n_expected": len(exp), "n_observed": len(obs)})
 
-        # the table itself, read back three ways, and through a tsv file
-        same(t, tab, tag="to_list:")
-        if rp.norm_rows(t.array.tolist()) != rp.spec_rows(big_in):
-            raise rp.Diff("array:rows", {})
         if act == "GetColumns":
+            # the table itself, read back three ways, and through a tsv file
+            same(t, tab, tag="to_list:")
+            if rp.norm_rows(t.array.tolist()) != rp.spec_rows(big_in):
+                raise rp.Diff("array:rows", {})
             same(t.get_columns(list(args[0])), to, tag="get_columns:")
             got, _ = tx.write_and_load(t, "tsv", tx._workdir())
             grows = rp.rows_of(got)
@@ -143,7 +148,7 @@ def check_long(run, stats, jobs):
     sizes = SIZES[run.tier]
     # quick: every operation on the smallest size, the larger one for reading the table back (to_list, array, tsv)
     work = [(r, n) for r in recs for n in sizes
-            if run.tier != "quick" or n == sizes[0] or r["act"] == "GetColumns"]
+            if run.tier != "quick" or n == sizes[0] or (r["act"] == "GetColumns" and odd_position(r) in (4, 5))]
     t0 = time.time()
     n_done = bad = 0
     with mp.get_context("fork").Pool(min(16, os.cpu_count() or 1), initializer=_worker_init) as pool:
